@@ -25,8 +25,8 @@ ASSUMPTIONS = [
     "amounts are exact integers 0..64; each job requires one storage (in the *_2entries obligations: two storage entries, outdir and tmpdir) on the location's single mount point '/'",
     "except in the *_overuse obligations (where usage may exceed the declaration but the volume can hold everything), the measured usage of a job's directories never exceeds its declared storage requirement (otherwise the ledger can exceed the capacity and Hardware.__sub__ raises 'negative size' inside _is_valid: noted in DESIGN.md as an observation outside C10-C12)",
     "callers' lifecycle (what ExecuteStep._run_job, ScheduleStep and RollbackFailureManager do): schedule only for a job that is unallocated or in ROLLBACK; RUNNING only from FIREABLE (or repeated while RUNNING); "
-    "COMPLETED/FAILED/CANCELLED from FIREABLE, RUNNING, RECOVERY or another terminal status (duplicates and out-of-order terminal notifications included); RECOVERY from FIREABLE, RUNNING or FAILED; ROLLBACK from COMPLETED, FAILED or RECOVERY; no notification for a job whose schedule request is still waiting",
-    "topologies: one location; two locations of one deployment (target.locations 1 or 2); slot-only location; a stacked wrapper location whose '/' is a bind of the base location's '/', with jobs targeting the wrapper and jobs targeting the base directly; two deployments as two declared targets",
+    "COMPLETED/FAILED/CANCELLED from FIREABLE, RUNNING, RECOVERY or another terminal status (duplicates and out-of-order terminal notifications included); RECOVERY from FIREABLE, RUNNING or FAILED; ROLLBACK from any allocated status (the failure manager only rolls back jobs that are not executing, but a direct or repeated ROLLBACK is accepted by the scheduler API); no notification for a job whose schedule request is still waiting",
+    "topologies: one location; two locations of one deployment (target.locations 1 or 2); slot-only location; a stacked wrapper location whose '/' is a bind of the base location's '/', with jobs targeting the wrapper and jobs targeting the base directly; a three-level stack (wrapper over wrapper over base); two deployments as two declared targets",
     "at most 3 jobs and (prefix + L) operations per history; default DataLocalityPolicy",
 ]
 T = (
@@ -174,6 +174,9 @@ def gen(prop, oracle, tier):
             out.append(_spec(prop, oracle, "stacked", 2, pr, Lx, [("b",), ("w",)], dims=d, cond=big, usage_sym=False, tagname="_bw"))
             out.append(_spec(prop, oracle, "stacked", 2, pr, Lx, [("w",), ("w",)], dims=d, cond=big, usage_sym=False, tagname="_ww"))
             out.append(_spec(prop, oracle, "two_deployments", 2, pr, Lx, [("x", "y"), ("x", "y")], dims=d, cond=big, usage_sym=False))
+            if Lx == 1 and pr in heavy[:4]:
+                out.append(_spec(prop, oracle, "stacked3", 3, pr, Lx, [("v",), ("v",)], dims="c", cond=big, usage_sym=False, tagname="_vv"))
+                out.append(_spec(prop, oracle, "stacked3", 3, pr, Lx, [("v",), ("b",)], dims="c", cond=big, usage_sym=False, tagname="_vb"))
     return out
 
 
